@@ -115,6 +115,20 @@ def make_stack(rid, rng):
             f.setdefault("__perfile__", []).append((sec, {"rule": {rid: {a: v}}}))
     if a == "severity":
         files[0]["severity"] = {"Todo": {"type": "error"}, "Future": {"type": "warning"}}
+    # decoy: another group the rule belongs to (parent / sub-group) sets a DIFFERENT attribute in the same
+    # configuration; both must take effect (no conflict, so no ordering question)
+    decoy = None
+    others = [g for g in d["groups"] if g != group]
+    gfiles = sorted({fi for fi, lv, g, v in assigns if lv == "group"})
+    if "group" in levels and others and len(gfiles) == 1 and rng.random() < 0.8:
+        cand = [x for x in ("fixable", "indent_size", "disable", "user_error_message", "phase") if x != a and not any(True for _ in ())]
+        a2 = rng.choice(cand)
+        v2 = {"fixable": False, "indent_size": 5, "disable": False, "user_error_message": "decoy message", "phase": d["defaults"].get("phase", 1)}[a2]
+        g2 = rng.choice(others)
+        fi = gfiles[0]  # same file as the other group entry: no cross-file replace-vs-merge question
+        files[fi].setdefault("rule", {}).setdefault("group", {}).setdefault(g2, {})[a2] = v2
+        decoy = (g2, a2, v2, fi)
+    files[0]["__decoy__"] = decoy
     return files, a, assigns
 
 
@@ -135,6 +149,7 @@ def _write_files(d, files, target_name, rng):
     paths = []
     for i, f in enumerate(files):
         f = copy.deepcopy(f)
+        f.pop("__decoy__", None)
         for sec, body in f.pop("__perfile__", []):
             lst = f.setdefault(sec, [])
             # neighbours: plain file names (file_list only) and other files' own sections, before and after
@@ -237,6 +252,16 @@ def run_case(case):
             tb = traceback.format_exc()
             levels = sorted({lv for _, lv, _, _ in assigns})
             return {"kind": "stack", "violations": [("exception-while-configuring:%s:%s:%s" % (type(e).__name__, a if a in ("severity",) else "attr", "+".join(levels)), {"rule": rid, "attr": a, "assigns": assigns, "trace": tb[-500:]})], "attr": a, "levels": levels}
+        decoy = files[0].get("__decoy__")
+        later_group = False
+        if decoy:
+            g2, a2, v2, fi2 = decoy
+            # entry-level replacement of rule.group by a later file is unspecified (§8): only judge when no later
+            # file carries a group section of its own
+            later_group = any("group" in (ff.get("rule") or {}) for ff in files[fi2 + 1 :])
+            o2 = _observe(paths, target, rid, a2, lines, want_behaviour=False)
+            if not later_group and o2["effective"] != v2:
+                V.append(("second-group-of-rule-ignored:%s" % _kind(a2), {"rule": rid, "group_with_attr": group_of(assigns), "decoy_group": g2, "attr": a2, "expected": v2, "observed": o2["effective"]}))
         top = max(assigns, key=lambda x: ({"global": 0, "group": 1, "rule": 2, "perfile": 3}[x[1]], x[0]))
         if obs["effective"] != exp:
             losers = sorted({lv for _, lv, _, _ in assigns})
@@ -244,12 +269,16 @@ def run_case(case):
         else:
             # behaviour equivalence with the single-level configuration
             single = {"rule": {rid: {a: exp}}}
+            if decoy and not later_group:
+                single["rule"][rid][decoy[1]] = decoy[2]
+            elif decoy:
+                single = None
             if a == "severity":
                 single["severity"] = {"Todo": {"type": "error"}, "Future": {"type": "warning"}}
             p1 = os.path.join(d, "single.json")
             with open(p1, "w") as fh:
-                json.dump(single, fh)
-            ref = _observe([p1], target, rid, a, lines)
+                json.dump(single or {}, fh)
+            ref = _observe([p1], target, rid, a, lines) if single is not None else obs
             for k in ("violations", "error_flag", "fix_changed", "fix_text"):
                 if a in ("indent_size", "indent_style") and k in ("violations", "fix_text", "fix_changed"):
                     pass
@@ -280,6 +309,13 @@ def run_case(case):
     finally:
         os.chdir(cwd)
         shutil.rmtree(d, ignore_errors=True)
+
+
+def group_of(assigns):
+    for fi, lv, g, v in assigns:
+        if lv == "group":
+            return g
+    return None
 
 
 def _kind(a):
